@@ -1,5 +1,6 @@
 import LitedramVerif.Model.SimPhy
 import LitedramVerif.Spec.DramData
+import LitedramVerif.Props.C19_Phy
 import Drv.Util
 open DrvUtil
 
@@ -64,4 +65,39 @@ def drvPhy (st : Option PhyDrv) (xs : List Nat) : Option PhyDrv × String :=
     let (ss', so) := if d.mode == 2 then (d.ss, ⟨false, 0⟩) else SimPhy.step d.sc d.ss sp
     let (rs', ro) := if d.mode == 1 then (d.rs, ⟨false, 0⟩) else DramData.step d.rc d.rs rp
     (some { d with ss := ss', rs := rs' }, fmt [b2n so.rddataValid, so.rddata, b2n ro.valid, ro.data, b2n rs'.err.isSome] ++ (match rs'.err with | some e => " " ++ e.replace " " "_" | none => ""))
+  | _, _ => (st, "bad-line")
+
+
+structure ADramDrv where
+  sc : SimPhy.Cfg
+  k : Nat
+  s : C19.ADram
+  legal : Bool := true      -- every cycle so far met `C19.cycLegal`
+
+/-- Drives the abstract multi-bank DRAM of `C19.simphy_refines_abstract_dram` (Props/C19_Phy.lean) and evaluates the theorem's
+legality hypothesis cycle by cycle.  Same cfg / cycle lines as `drvPhy`.  out: "<valid> <data> <legal so far>" -/
+def drvADram (st : Option ADramDrv) (xs : List Nat) : Option ADramDrv × String :=
+  match st, xs with
+  | none, nphases :: nbanks :: rowbits :: colbits :: burst :: phaseBits :: wl :: rl :: weGran :: mapping :: ninit :: rest =>
+    let img := (rest.take ninit).toArray
+    let sc : SimPhy.Cfg := { nphases, nbanks, rowbits, colbits, burst, phaseBits, writeLatency := wl, readLatency := rl, weGranularity := weGran }
+    let dw := phaseBits * nphases
+    let nrows := 2 ^ rowbits
+    let wpr := 2 ^ colbits / (burst * nphases)
+    let simInit : Nat → Array Nat := fun b =>
+      if ninit == 0 then #[] else
+      (Array.range (nrows * wpr)).map fun idx =>
+        imgWord img dw (linIndex mapping nbanks nrows wpr b (idx / wpr) (idx % wpr))
+    let k := Nat.log2 (burst * nphases)
+    let ok := (burst * nphases == 2 ^ k) && decide (k ≤ colbits)
+    (some { sc, k, s := C19.aDramInit sc k simInit, legal := ok }, if ok then "cfg wf=1" else "cfg wf=0")
+  | some d, xs =>
+    let arr := xs.toArray
+    let sp : List SimPhy.Phase := (List.range d.sc.nphases).map fun i =>
+      let b := 8 * i
+      { csN := arr.getD b 1, rasN := n2b (arr.getD (b+1) 1), casN := n2b (arr.getD (b+2) 1), weN := n2b (arr.getD (b+3) 1),
+        bank := arr.getD (b+4) 0, address := arr.getD (b+5) 0, wrdata := arr.getD (b+6) 0, wrdataMask := arr.getD (b+7) 0 }
+    let lg := d.legal && ((List.range d.sc.nbanks).all fun nb => C19.cycOkB sp nb && C19.legalOpB d.sc (d.s.abanks nb) (C19.cmdFor d.sc sp nb))
+    let (s', o) := C19.aDramStep d.sc d.k d.s sp
+    (some { d with s := s', legal := lg }, fmt [b2n o.rddataValid, o.rddata, b2n lg])
   | _, _ => (st, "bad-line")
